@@ -11,14 +11,14 @@ Import ListNotations.
 
 Definition is_cur (s : pair) (p : pid) : bool := match pr_p s with Some q => N.eqb q p | None => false end.
 
-Definition pair_step_g (k : pkind) (fx fs : bool) (s : pair) (o : pop) : pair * list pout :=
+Definition pair_step_g (k : pkind) (fx fr fs : bool) (s : pair) (o : pop) : pair * list pout :=
   match o with
   | PSendDone p rv =>
       if fs && N.eqb rv 0 && negb (is_cur s p) then
         (* pipe_send_cb -> send_sched(s, p): s->p != p => return *)
         (mkPair (pr_p s) (pr_ttl s) (pr_wmq s) (pr_wcap s) (pr_waq s) (pr_rmq s) (pr_rcap s) (pr_raq s)
                 (pr_rd s) (pr_wr s) (set_snd (pr_sending s) p None) (pr_readable s) (pr_writable s), [])
-      else pair_step k fx s o
+      else pair_step k fx fr s o
   | PRecvDone p rv m =>
       if fs && N.eqb rv 0 && negb (is_cur s p) then
         match rx_decode k (pr_ttl s) m, pr_raq s with
@@ -27,9 +27,9 @@ Definition pair_step_g (k : pkind) (fx fs : bool) (s : pair) (o : pop) : pair * 
               (* neither a waiting receiver nor room in rmq, and the pipe is not the peer: freed *)
               (mkPair (pr_p s) (pr_ttl s) (pr_wmq s) (pr_wcap s) (pr_waq s) (pr_rmq s) (pr_rcap s) []
                       (pr_rd s) (pr_wr s) (pr_sending s) true (pr_writable s), [Free m'])
-            else pair_step k fx s o
-        | _, _ => pair_step k fx s o
+            else pair_step k fx fr s o
+        | _, _ => pair_step k fx fr s o
         end
-      else pair_step k fx s o
-  | _ => pair_step k fx s o
+      else pair_step k fx fr s o
+  | _ => pair_step k fx fr s o
   end.
